@@ -14,8 +14,8 @@ from .edits import Insert, Match
 from .graphtage import BuildOptions, Filetype, KeyValuePairNode, LeafNode, ListNode, MappingNode, StringNode, \
     StringEdit, StringFormatter
 from .printer import Fore, Printer
-from .sequences import SequenceFormatter, SequenceNode
-from .tree import ContainerNode, Edit, GraphtageFormatter, TreeNode
+from .sequences import SequenceEdit, SequenceFormatter, SequenceNode
+from .tree import ContainerNode, Edit, EditedTreeNode, GraphtageFormatter, TreeNode
 
 
 def build_tree(path: str, options: Optional[BuildOptions] = None, *args, **kwargs) -> TreeNode:
@@ -32,6 +32,11 @@ def build_tree(path: str, options: Optional[BuildOptions] = None, *args, **kwarg
             return json.build_tree(singleton, options=options, *args, **kwargs)
 
 
+def _has_sequence_edit(node: SequenceNode) -> bool:
+    """Whether printing this (edited) sequence will walk the sub-edits of its edit, e.g., items inserted into an empty list"""
+    return isinstance(node, EditedTreeNode) and isinstance(node.edit, SequenceEdit)
+
+
 class YAMLListFormatter(SequenceFormatter):
     is_partial = True
 
@@ -41,9 +46,13 @@ class YAMLListFormatter(SequenceFormatter):
     def print_SequenceNode(self, printer: Printer, node: SequenceNode):
         self.parent.print(printer, node)
 
-    def print_ListNode(self, printer: Printer, *args, **kwargs):
+    def print_ListNode(self, printer: Printer, node: SequenceNode, *args, **kwargs):
+        if len(node) == 0 and not _has_sequence_edit(node):
+            # a block sequence without items is no text at all, which would load back as null
+            printer.write('[]')
+            return
         printer.newline()
-        super().print_SequenceNode(printer, *args, **kwargs)
+        super().print_SequenceNode(printer, node, *args, **kwargs)
 
     def edit_print(self, printer: Printer, edit: Edit):
         printer.indents += 1
@@ -90,11 +99,18 @@ class YAMLDictFormatter(SequenceFormatter):
     def __init__(self):
         super().__init__('', '', '')
 
-    def print_MultiSetNode(self, *args, **kwargs):
-        super().print_SequenceNode(*args, **kwargs)
+    def print_MultiSetNode(self, printer: Printer, node: SequenceNode, *args, **kwargs):
+        if len(node) == 0 and not _has_sequence_edit(node):
+            printer.write('!!set {}')
+            return
+        super().print_SequenceNode(printer, node, *args, **kwargs)
 
-    def print_MappingNode(self, *args, **kwargs):
-        super().print_SequenceNode(*args, **kwargs)
+    def print_MappingNode(self, printer: Printer, node: SequenceNode, *args, **kwargs):
+        if len(node) == 0 and not _has_sequence_edit(node):
+            # a block mapping without entries is no text at all, which would load back as null
+            printer.write('{}')
+            return
+        super().print_SequenceNode(printer, node, *args, **kwargs)
 
     def print_SequenceNode(self, *args, **kwargs):
         self.parent.print(*args, **kwargs)
